@@ -388,6 +388,18 @@ theorem instOk_cow2 (s : St) (h1 h2 : List Param) (c : CId) (n : Name) (p : PId)
   instOk_cow c n p (by show (setDict { s with heap := h1 } c n p).insts = s.insts; rw [setDict_insts])
     (by unfold clearDesc; simp only [setDict_classes_heap]) h
 
+/-- installing a Parameter without touching any cache (a rejected Parameter-valued class assignment) -/
+theorem instOk_setDict (s : St) (h1 h2 : List Param) (c : CId) (n : Name) (p : PId) (h : InstOk s) :
+    InstOk { setDict { s with heap := h1 } c n p with heap := h2 } := by
+  have e : ({ setDict { s with heap := h1 } c n p with heap := h2 } : St).classes = (setDict s c n p).classes :=
+    setDict_classes_heap s h1 c n p
+  obtain ⟨e1, e2⟩ := shape_of_classes e
+  obtain ⟨f1, f2⟩ := clearDesc_shape (setDict s c n p) c
+  refine instOk_of (s := s)
+    (by show (setDict { s with heap := h1 } c n p).insts = s.insts; rw [setDict_insts])
+    (fun c' => by rw [e1, ← f1]; exact mroOf_clear_setDict s c n p c')
+    (fun k m hk => by rw [e2, ← f2]; exact clsDict_clear_setDict_mono s c n p k m hk) h
+
 theorem instantiated_classes {s s1 : St} {i : IId} {x : Inst} {n : Name} {p ip : PId}
     (h : instantiated s i x n p = .ok (s1, ip)) : s1.classes = s.classes := by
   unfold instantiated at h
